@@ -140,6 +140,16 @@ def _on_instruction(code, offset):
     return None
 
 
+def external_point(tag):
+    """Scheduling point requested by harness code (fake socket operations) on behalf of the running thread."""
+    ex = _active
+    if ex is None:
+        return
+    rec = _managed.get(threading.get_ident())
+    if rec is not None:
+        ex.point(rec, None, tag)
+
+
 def install(instruction_level_for=(), extra_functions=(), only=None):
     """Enable LINE events on all hl7apy function code objects (idempotent); INSTRUCTION events on the
     code objects of the given functions."""
@@ -239,7 +249,7 @@ class Execution(object):
             return
         me.steps += 1
         if self.trace:
-            self.where.append((me.idx, code.co_name, line))
+            self.where.append((me.idx, code.co_name if code is not None else 'external', line))
         c = self._choose(1 + len(others), True, me.idx)
         if c != 0:
             target = others[c - 1]
@@ -305,20 +315,24 @@ class Execution(object):
         return sum(1 for j in range(i) if self.points[j][1] and self.choices[j] != 0)
 
 
-def explore(make_bodies, bound, on_execution, max_executions=None):
+def explore(make_bodies, bound, on_execution, max_executions=None, shard=None):
     """Iterative preemption bounding.  make_bodies() -> list of zero-argument callables (fresh objects each
     time).  on_execution(choices, results, execution) is called for every complete execution.  A schedule is
-    kept as the sparse map of its non-default choices.  Returns (executions, capped)."""
-    stack = [{}]
+    kept as the sparse map of its non-default choices.  shard=(k, n): this worker expands only the subtrees
+    whose first preemption sits at a point index congruent to k modulo n; executions without any preemption
+    are run by every shard but reported (callback, count) by shard 0 only.  Returns (executions, capped)."""
+    stack = [({}, False)]
     n = 0
     capped = False
     while stack:
-        forced = stack.pop()
+        forced, has_pre = stack.pop()
         ex = Execution(make_bodies(), forced)
         results = ex.run()
-        n += 1
-        if on_execution(ex.choices, results, ex) == 'stop':
-            return n, False
+        mine = shard is None or has_pre or shard[0] == 0
+        if mine:
+            n += 1
+            if on_execution(ex.choices, results, ex) == 'stop':
+                return n, False
         start = ex.last_forced + 1
         pre = sum(1 for j in range(start) if ex.points[j][1] and ex.choices[j] != 0)   # preemptions so far
         for i in range(start, len(ex.points)):
@@ -327,10 +341,12 @@ def explore(make_bodies, bound, on_execution, max_executions=None):
             cost = pre + (1 if running_enabled else 0)
             if cost > bound:
                 continue
+            if shard is not None and not has_pre and running_enabled and i % shard[1] != shard[0]:
+                continue
             for alt in range(1, n_alt):
                 child = dict(forced)
                 child[i] = alt
-                stack.append(child)
+                stack.append((child, has_pre or running_enabled))
         if max_executions is not None and n >= max_executions and stack:
             capped = True
             break
